@@ -43,7 +43,7 @@ UNITS['flag'] = dict(
     harnesses={
         'c15_flag_set': dict(props=['C15', 'C14', 'C03']),
         'c15_flag_usize': dict(props=['C15', 'C14', 'C03']),
-        'c15_cond_shutdown': dict(props=['C15', 'C14', 'C03']),
+        'c15_cond_shutdown': dict(props=['C15', 'C14', 'C03'], panic_map=[(r'Function exit\(\) was invoked|std::process::exit', 'C15.UNDERSCORE')]),
         'c16_cond_default': dict(props=['C16', 'C14']),
     })
 
@@ -54,7 +54,7 @@ obl('C15.VALUE', 'flag::register_usize (action closure)', 'after each delivery t
 obl('C15.EXIT-IFF', 'flag::register_conditional_shutdown (action closure)', '_exit is reached iff the condition loads true during that delivery; otherwise the delivery returns')
 obl('C15.STATUS', 'flag::register_conditional_shutdown (action closure)', 'the status passed to _exit equals the registered status, all c_int')
 obl('C15.ONLY-EXIT', 'flag::register_conditional_shutdown (action closure)', '_exit is the first and only libc call of the delivery (immediately)', also=['C03'])
-obl('C15.UNDERSCORE', 'low_level::exit', 'termination is by _exit, never exit()/abort() (no exit-time hooks)', never=True)
+obl('C15.UNDERSCORE', 'low_level::exit', 'termination is by _exit, never exit()/abort()/std::process::exit (no exit-time hooks, nothing that is not async-signal-safe)', never=True, also=['C03'])
 obl('C15.NOOP', 'flag::register_conditional_shutdown (action closure)', 'condition false => no libc call at all')
 
 PROPS['C15'] = dict(
@@ -381,7 +381,7 @@ UNITS['registry_hist'] = dict(
     rewrite=_MAPRW, scan=[K + 'libc_model.rs'], timeout={'quick': 1800, 'thorough': 3600},
     harnesses={
         'c02_hist_order': dict(props=['C02', 'C05', 'C04'], kind='bounded', bound='bounded(one history shape: 3 actions on one symbolic signal, symbolic choice of the removed one)'),
-        'c05_hist_two_signals': dict(props=['C05', 'C02', 'C04'], kind='bounded', bound='bounded(one history shape: two symbolic signals)'),
+        'c05_hist_two_signals': dict(props=['C05', 'C02', 'C04'], tier='thorough', kind='bounded', bound='bounded(one history shape: two symbolic signals)'),
         'c05_hist_reregister': dict(props=['C05', 'C02'], kind='bounded', bound='bounded(one history shape: register x2, remove one, register again)'),
     })
 # experiment: the same harnesses on the REAL std HashMap/BTreeMap (no map rewrite)
@@ -463,13 +463,32 @@ PROPS['C14'] = dict(level='proof', units=['registry', 'flag', 'pipe', 'backend_c
     technique='checks-before-effects contracts on every checked entry point over all c_int, Kani/CBMC',
     explanation='Registry entry points refuse forbidden numbers before touching global state; front-ends (flags, pipe, iterator) delegate to them with the same number (C15.SET-SIG, C13.REGISTER-ONCE, C12.REGISTER-ONCE/C14.ITER-*); OS refusals propagate without publishing.')
 
+# --------------------------------------------------------------------------------------------
+# Engine V on the real mutators (extracted mechanically on every run, see lib/verus_registry.py): unbounded
+UNITS['registry_verus'] = dict(name='registry_verus', engine='verus', module='verus_registry', entry='run_registry', min_verified=11, rlimit=30,
+    obligations=['C05.V-UNREG-IFF-LIVE', 'C05.V-PUBLISH-IFF-CHANGED', 'C05.V-REMOVE-ONLY-IT', 'C05.V-UNREG-SIGNAL', 'C05.V-REG-APPEND',
+                 'C05.V-ID-FRESH', 'C05.V-INV', 'C05.V-NO-PANIC', 'C02.V-ID-MONO', 'C04.V-PREV-PUBLISHED', 'C14.V-ERR-NO-PUBLISH', 'C05.V-HISTORY'])
+FV = 'registry lib.rs (extracted text, Verus, every registry state satisfying Inv - unbounded): '
+obl('C05.V-UNREG-IFF-LIVE', FV + 'unregister', 'result == (id.action is in the map of id.signal in the snapshot read under the writer mutex)')
+obl('C05.V-PUBLISH-IFF-CHANGED', FV + 'unregister, unregister_signal, register_unchecked_impl', 'the guard publishes exactly once iff the view changes (never before, never twice; zero publications when the result is false)', also=['C01', 'C02'])
+obl('C05.V-REMOVE-ONLY-IT', FV + 'unregister', 'whole-view postcondition: published view == old view with exactly id.action removed from id.signal; every other action, every other signal, prev and the key set unchanged', also=['C02'])
+obl('C05.V-UNREG-SIGNAL', FV + 'unregister_signal', 'result == (the signal has at least one action); published view == old view with that signal\'s map emptied; the slot (and its prev) stays; everything else unchanged')
+obl('C05.V-REG-APPEND', FV + 'register_unchecked_impl', 'on Ok: key set grows by at most the signal, every other signal unchanged, the signal\'s map gains exactly (new id -> the action passed in)', also=['C02'])
+obl('C05.V-ID-FRESH', FV + 'register_unchecked_impl, unregister, unregister_signal', 'returned id == next_id of the snapshot read, published next_id == next_id + 1, the id is live for no signal; removals keep next_id', also=['C02'])
+obl('C05.V-INV', FV + 'all three mutators', 'representation invariant (every id in any per-signal map < next_id) holds for every snapshot handed to store, assuming it for the snapshot read (inductive step)')
+obl('C05.V-NO-PANIC', FV + 'all three mutators', 'no verifier-generated check on a line of the real code fails: assert!(insert(..).is_none()) cannot fire, no arithmetic overflow (under A9), no unwrap of None')
+obl('C02.V-ID-MONO', FV + 'register_unchecked_impl', 'the new id is greater than every id already registered for that signal (BTreeMap iterates in key order => it runs last)', also=['C05'])
+obl('C04.V-PREV-PUBLISHED', FV + 'register_unchecked_impl', 'occupied: the slot\'s prev is unchanged; vacant: the published slot is the one Slot::new returned for this signal')
+obl('C14.V-ERR-NO-PUBLISH', FV + 'register_unchecked_impl', 'at both early returns (`?` on Prev::detect / Slot::new) nothing has been published on `data`; the function has no other early return (syntactic side condition)')
+obl('C05.V-HISTORY', 'lemmas over the postconditions above (verus/registry/lemmas.rs)', 'for every history of mutator calls of any length: Inv everywhere, next_id monotone, two successful registrations never return the same id, a new id was live in no earlier state, an id removed by unregister stays dead and every later unregister of it returns false and changes nothing (induction, machine-checked)')
+
 FHI = 'registry lib.rs (public mutators + handler, history): '
 obl('C02.HIST-ORDER', FHI + 'register_sigaction, unregister, handler', 'register x3, remove any one, register again: survivors run in registration order, newest last', kind='bounded(history shape)')
 obl('C02.HIST-ONLY-SIG', FHI + 'handler', 'other signals\' actions never run', kind='bounded(history shape)')
 obl('C05.HIST-ID-FRESH', FHI + 'register_sigaction', 'ids pairwise distinct across the history, also after removals', kind='bounded(history shape)')
 obl('C05.HIST-UNREG', FHI + 'unregister', 'true for live, false for stale', kind='bounded(history shape)')
-obl('C05.HIST-UNREG-SIGNAL', FHI + 'unregister_signal', 'true iff the signal had actions', kind='bounded(history shape)')
-obl('C05.HIST-INDEPENDENT', FHI + 'unregister_signal', 'other signals unaffected', kind='bounded(history shape)')
+obl('C05.HIST-UNREG-SIGNAL', FHI + 'unregister_signal', 'true iff the signal had actions', kind='bounded(history shape)', tier='thorough')
+obl('C05.HIST-INDEPENDENT', FHI + 'unregister_signal', 'other signals unaffected', kind='bounded(history shape)', tier='thorough')
 obl('C05.HIST-INSTALL-ONCE', FHI + 'register_sigaction', 'query+install once per signal over the whole history', kind='bounded(history shape)')
 obl('C04.HIST-STILL-CHAINED', FHI + 'handler', 'previous handler chained once per delivery even with zero actions', kind='bounded(history shape)', tier='thorough')
 PROPS['C02']['units'] = ['registry', 'registry_hist']
@@ -506,3 +525,18 @@ UNITS['lemma_fifo'] = dict(name='lemma_fifo', engine='verus', module='verus_unit
 obl('C06.L-FIFO', 'composition lemma over C06.ATOMIC / C06.OWN / C06.G-INV / C07.OWN-CELL / C07.EMPTY-MEANS-NONE', 'transition system of any number of senders/receivers whose steps are the successful CASes and owned cell accesses: received ++ still-queued == sent, in the order of the linearization points (push to / pop from `full`); a send finds no free index only if all five are queued or in flight (inductive invariant, machine-checked)')
 PROPS['C06']['units'] = ['channel', 'channel_priv', 'lemma_fifo']
 PROPS['C06']['trusted'] = L('A1', 'A7', 'A10') + ['linearizability: the lemma L-FIFO is machine-checked (Verus) over the step contracts; that its steps are exactly those contracts is by reading (A8 narrowed to this link)']
+
+# registry_verus wiring (after all unit lists are final)
+for _p in ('C05', 'C02', 'C04', 'C14', 'C01'):
+    PROPS[_p]['units'] = PROPS[_p]['units'] + ['registry_verus']
+_VT = ['Verus unit registry_verus: assumed contracts (verus/registry/prelude_a.rs, prelude_b.rs): WriteGuard::{deref,store} and HalfLock::write (real bodies proved against them by Kani: C01.S-*, C01.WG-LOAD), HashMap::get_mut (std), derived Clone of SignalData = same view, derived Ord of ActionId = numeric order, Slot::new / Prev::detect result shape (proved by Kani c05_slot_new), GlobalData::ensure; opaque stand-ins for `dyn Fn` actions and Arc',
+       'Verus unit: Inv is ASSUMED for the snapshot read under the writer mutex and PROVED for every snapshot published (induction over publications; base case - empty map, next_id 1 in GlobalData::ensure - by reading); A9 assumed as `next_id < u128::MAX`',
+       'Verus unit: machine integers are mathematical integers with explicit range obligations (overflow checks generated by Verus)']
+for _p in ('C05', 'C02', 'C04', 'C14'):
+    PROPS[_p]['trusted'] = PROPS[_p]['trusted'] + _VT
+PROPS['C05']['level'] = 'proof'
+PROPS['C05']['technique'] = 'whole-view function contracts + representation invariant + history induction on the real mutators (mechanically extracted text), Verus/Z3, unbounded; complete Kani contract of Slot::new; bounded Kani per-operation/history harnesses kept as cross-check and counterexample source'
+PROPS['C05']['explanation'] = ('Verus proves, on the text of unregister / unregister_signal / register_unchecked_impl extracted from /repo on every run, for EVERY registry state satisfying the invariant '
+    '(any number of signals, actions, any ids): the published view is exactly the model\'s (only the addressed action removed, other signals untouched, slots never removed, fresh increasing ids), one publication iff the view changes; '
+    'and, by induction over histories of any length, ids are never reused and stale ids stay dead. Kani proves Slot::new installs the dispatcher once with SA_RESTART|SA_SIGINFO for all c_int. '
+    'The delivery side of the model (what runs) is C02 and is bounded in state shape.')
